@@ -138,6 +138,7 @@ class C16(runner.Check):
 				"blank_after_last": r.choice([None, None, 0]),
 				"blank_after_motif_line": r.choice([0, 1, 1, 2]),
 				"numfmt": r.wchoice(["repr", "e", "f6", "int"], [5, 1, 1, 1]),
+				"log_odds_section": r.chance(0.15),
 				"sep": r.choice([" ", " ", "  ", "\t"])}
 			f = S("faults")
 			io_plan = {"short_reads": f.chance(0.7), "max_read": f.choice([1, 3, 16, 64]),
